@@ -4,9 +4,9 @@
 B=${1:-60}
 OUT=/verif/seeded/RESULTS.txt
 echo "# seeded change -> check, exit code (1 = violation reported = detected), first signature; budget ${B}s; repo $(git -C /repo rev-parse --short HEAD)" > $OUT
-for D in /verif/seeded/*/; do
+for D in /verif/seeded/C*/; do
   M=$(basename $D)
-  ID=$(/venv/bin/python -c "import json;print(json.load(open('$D/meta.json'))['detected_by']['check'])")
+  ID=$(/venv/bin/python -c "import json;m=json.load(open('$D/meta.json'));c=m['detected_by']['check'];print(c if c!='none' else m['written_for_property'])")
   R=$(/verif/tools/try_mutant.sh $D/patch.diff $ID quick $B 2>&1 | grep -v WARNING)
   RC=$(echo "$R" | grep -o "exit=[0-9]*" | head -1)
   SIG=$(echo "$R" | grep "signature:" | head -1 | sed 's/^ *signature: //; s/   (seen.*//')
